@@ -198,6 +198,14 @@ func genTraceScenarios(c *fw.Ctx, n int, emit func(*traceScenario)) {
 			}
 			return strings.TrimPrefix(to, dir)
 		}
+		// the fault may sit at any level of the chain: in the deepest file, or in a middle file before or after its own
+		// INCLUDE of the next level (the files below are then harmless)
+		faultLevel := depth
+		faultAfterInclude := false
+		if depth > 1 && r.Intn(2) == 0 {
+			faultLevel = 1 + r.Intn(depth-1)
+			faultAfterInclude = r.Intn(3) != 0
+		}
 		harmless := 0
 		for d := 0; d < depth; d++ {
 			f := files[names[d]]
@@ -217,10 +225,28 @@ func genTraceScenarios(c *fw.Ctx, n int, emit func(*traceScenario)) {
 				sc.earlier[names[d]] = append(sc.earlier[names[d]], at)
 				pad(f, false)
 			}
+			if d == faultLevel && !faultAfterInclude {
+				sc.errFile = names[d]
+				sc.errLine = f.add(faultText)
+				if kind == 1 {
+					sc.errLine++
+				}
+				pad(f, false)
+			}
 			at := f.add("INCLUDE " + relTo(names[d], names[d+1]))
 			sc.earlier[names[d]] = append(sc.earlier[names[d]], at)
-			sc.chain = append([]tracePair{{File: names[d], Line: at}}, sc.chain...)
+			if d < faultLevel {
+				sc.chain = append([]tracePair{{File: names[d], Line: at}}, sc.chain...)
+			}
 			pad(f, false)
+			if d == faultLevel && faultAfterInclude {
+				sc.errFile = names[d]
+				sc.errLine = f.add(faultText)
+				if kind == 1 {
+					sc.errLine++
+				}
+				pad(f, false)
+			}
 			if family == 4 && r.Intn(2) == 0 {
 				harmless++
 				hn := fmt.Sprintf("h%d.jst", harmless)
@@ -235,16 +261,28 @@ func genTraceScenarios(c *fw.Ctx, n int, emit func(*traceScenario)) {
 		}
 		leaf := files[names[depth]]
 		pad(leaf, false)
-		sc.errFile = names[depth]
-		sc.errLine = leaf.add(faultText)
-		if kind == 1 {
-			sc.errLine++ // the reference sits on the second line of the body
+		if faultLevel == depth {
+			sc.errFile = names[depth]
+			sc.errLine = leaf.add(faultText)
+			if kind == 1 {
+				sc.errLine++ // the reference sits on the second line of the body
+			}
+		} else {
+			uniq++
+			leaf.add(fmt.Sprintf("TYPE @leaf%d any", uniq)) // the deepest file holds a harmless directive
 		}
 		pad(leaf, false)
 		if family == 2 && kind != 0 && kind != 3 {
 			family = 0
 		}
 		sc.family = []string{"chain", "earlier-sibling-include", "chain", "chain", "later-sibling-include"}[family]
+		if faultLevel < depth {
+			if faultAfterInclude {
+				sc.family += "/fault-in-middle-file-after-its-include"
+			} else {
+				sc.family += "/fault-in-middle-file-before-its-include"
+			}
+		}
 		job := &proto.Job{ID: fmt.Sprintf("trace-%d", i), Root: "root.jst", Files: map[string][]byte{}}
 		for nm, fb := range files {
 			job.Files[nm] = fb.bytes(eol)
